@@ -483,6 +483,7 @@ type Contract struct {
 	Checks    []*Clause
 	BeforeAssumes []BeforeAssume
 	BeforeAsserts []BeforeAssert
+	BeforeUses    []BeforeUse
 	Modifies  []*Expr
 	ModAll    bool
 	Inline    bool
@@ -522,6 +523,11 @@ type SpecFunc struct {
 	Rec     bool
 	Opaque  bool
 	Pkg     string
+}
+
+type BeforeUse struct {
+	Callee string
+	E      *Expr
 }
 
 type BeforeAssert struct {
@@ -751,6 +757,40 @@ func (sp *Specs) loadSpecFile(path, pkg string, trustedFile bool) error {
 		case "nosafety":
 			cur.NoSafety = true
 		case "use":
+			if bi := strings.LastIndex(rest, " before "); bi >= 0 && cur != nil && !strings.ContainsAny(rest[bi+8:], " ") {
+				// use lemma(args) [forall v] before <callee>: applied right before each direct call of the callee
+				callee := strings.TrimSpace(rest[bi+8:])
+				r2 := strings.TrimSpace(rest[:bi])
+				var univ []string
+				if fi := strings.LastIndex(r2, " forall "); fi >= 0 && !strings.Contains(r2[fi:], "::") {
+					for _, v := range strings.Split(r2[fi+8:], ",") {
+						univ = append(univ, strings.TrimSpace(v))
+					}
+					r2 = strings.TrimSpace(r2[:fi])
+				}
+				var bguard *Expr
+				if gi := strings.Index(r2, " when "); gi >= 0 {
+					g, err := parseExpr(strings.TrimSpace(r2[gi+6:]))
+					if err != nil {
+						return fail(err)
+					}
+					bguard = g
+					r2 = strings.TrimSpace(r2[:gi])
+				}
+				ue, err := parseExpr(r2)
+				if err != nil {
+					return fail(err)
+				}
+				if bguard != nil {
+					ue = &Expr{Op: "guarded", Args: []*Expr{bguard, ue}}
+				}
+				if len(univ) > 0 {
+					ue = &Expr{Op: "universal", Vars: univ, Args: []*Expr{ue}}
+				}
+				cur.BeforeUses = append(cur.BeforeUses, BeforeUse{Callee: callee, E: ue})
+				cur.Uses = append(cur.Uses, &Expr{Op: "noop", Args: []*Expr{ue}}) // keeps the lemma in the property closure
+				break
+			}
 			anchor := ""
 			if ai := strings.LastIndex(rest, " at "); ai >= 0 && !strings.ContainsAny(rest[ai+4:], " ()") {
 				anchor = strings.TrimSpace(rest[ai+4:])
